@@ -211,4 +211,4 @@ _flags.int_format_placeholder = True
 def e2_obligations(tier):
     """wide-range verification conditions over the AST of the real source (vf/e2.py, vf/e2k.py)"""
     from vf import e2k
-    return [e2k.acl_fragmentation(), e2k.acl_assembler_step()]
+    return [e2k.acl_fragmentation(), e2k.acl_assembler_step(), e2k.iso_fragmentation()]
